@@ -40,6 +40,11 @@ GNext ==
           /\ Alive(h)
           /\ Register(h, id, d) \/ RegisterOverwrite(h, id, d)
           /\ Rec(Ev("Register", h, id, d, 0, 0, 0))
+     \* extra weight for the rare shape "one shard settled, another still in flight, register more"
+     \/ \E h \in Hashes, id \in Ids, d \in {RandomElement(Fitting)} :
+          /\ HasSettled(payments[h]) /\ HasInflight(payments[h])
+          /\ Register(h, id, d)
+          /\ Rec(Ev("Register", h, id, d, 0, 0, 0))
      \/ \E h \in Hashes, id \in SomeIds :
           /\ Alive(h)
           /\ Settle(h, id) \/ ForeignSettle(h, id)
